@@ -1,13 +1,13 @@
 """C14 — run_timeout stops only in a sound, resumable state."""
 from . import core, eng, gen, engcheck
 
-THEOREMS = ["timeout_true_complete", "timeout_false_sound", "interrupted_between", "resume_complete", "lattice_timeout_sound", "lattice_resume_complete"]
+THEOREMS = ["timeout_true_complete", "timeout_false_sound", "interrupted_between", "resume_complete", "lattice_timeout_sound", "lattice_resume_complete", "timeout_false_sound_agg", "timeout_false_sound_agg_from", "resume_complete_agg"]
 TRUSTED = ["Lean 4.33.0 kernel", "axioms: propext, Classical.choice, Quot.sound only (audited per theorem)",
            "statement: Props/C14.lean (arbitrary deadline oracle over the clock readings; any number of interruptions)",
            "model Model/Engine.lean (check points after each changing iteration of a looping SCC and at the end of a non-looping SCC; early return "
            "drops the SCC's local indices) tied by compiled programs with #![generate_run_timeout] under the virtual clock hook "
            "(ascent::internal::verif::arm_deadline): the k-th clock reading fires, for EVERY k up to the number of readings of the uninterrupted run",
-           "the wall clock itself is replaced by the hook (real Instant only in the un-armed run() path); aggregation-free programs in the theorems; programs with aggregation are tied only"]
+           "the wall clock itself is replaced by the hook (real Instant only in the un-armed run() path); stratified programs with aggregation / negation: Props/C13Agg.lean (timeout_false_sound_agg, resume_complete_agg, relative to an uninterrupted reference run)"]
 MAXK = 14
 
 
@@ -44,6 +44,18 @@ def build(rng, tier):
                 inst = f"{pid}_{j}_{k}"
                 ops = [f"eng new {inst} {pid}"] + engcheck.load_ops(inst, inp) + [f"eng runto {inst} {k}", f"eng dump {inst}", f"eng run {inst}", f"eng dump {inst}"]
                 cases.append(engcheck.Case(pid, inst, ops, {"inp": inp, "kind": "lattice-single", "k": k, "lat": True}))
+    # stratified programs with aggregation / negation downstream of (recursive) strata, under every crash point
+    for i, p in enumerate(engcheck.make_programs(rng.fork("c14agg"), 5 if tier == "quick" else 25, genf=gen.gen_agg_program, filt=eng.stratifiable)):
+        pid = f"ta{i}"
+        progs[pid] = p
+        mods.append((pid, eng.rs_module(pid, p, attrs=("generate_run_timeout",))))
+        for j in range(2 if tier == "quick" else 6):
+            r2 = rng.fork(f"{pid}t{j}")
+            inp = gen.nodup_input(r2, p, max_rows=8)
+            for k in range(MAXK):
+                inst = f"{pid}_{j}_{k}"
+                ops = [f"eng new {inst} {pid}"] + engcheck.load_ops(inst, inp) + [f"eng runto {inst} {k}", f"eng dump {inst}", f"eng run {inst}", f"eng dump {inst}"]
+                cases.append(engcheck.Case(pid, inst, ops, {"inp": inp, "kind": "agg-single", "k": k}))
     return progs, mods, cases
 
 
@@ -95,7 +107,7 @@ def canon(c, out):
 
 
 def check(tier, replay=None):
-    return engcheck.run_property("C14", tier, modules=["AscentVerif.Props.C14", "AscentVerif.Props.C13L"], theorems=THEOREMS, trusted=TRUSTED, group="c14",
+    return engcheck.run_property("C14", tier, modules=["AscentVerif.Props.C14", "AscentVerif.Props.C13L", "AscentVerif.Props.C13Agg"], theorems=THEOREMS, trusted=TRUSTED, group="c14",
                                  build=build, oracle=oracle, canon=canon, what="run_timeout histories on compiled programs under the virtual clock",
                                  rule="generated programs compiled with #![generate_run_timeout] x inputs x EVERY crash point k = 0..13 (k-th clock reading fires; "
                                       "beyond the last reading the call completes) followed by run(), plus repeated interruptions k1 k2 .. then completion; after "
